@@ -11,7 +11,8 @@ RULE = ("inline: case = script whose elements carry `{…}` text built from atom
         "place text may appear (named/nameless elements, before children, repeated elements, groups, text-only items), plus attribute values "
         "containing ( ) [ ] { } and operators; oracle = exact equality with the reference rendering (text verbatim, before the children; a `$#` placeholder "
         "with no wrap text supplied contributes nothing). "
-        "wrap: case = (script with at most one implicit repeater `X*` at depth 0–3 with 0–2 `$#` placeholders in text/attribute values, text = list of "
+        "wrap: case = (script with at most one implicit repeater `X*` at depth 0–3 with 0–2 `$#` placeholders in text/attribute values "
+        "(optionally with an explicit `*N` element or group below it that carries the placeholder, and a self-closing `x/` deepest element), text = list of "
         "0–6 lines or one string over the same alphabet incl. blank lines and lines that look like syntax); oracle = reference placement (one copy per "
         "non-blank line in order, trimmed line verbatim at every placeholder, else appended once to the deepest last element; without `*` the whole "
         "text once in the deepest last element — compared exactly when single-line, by trimmed-line sequence when multi-line). "
@@ -213,7 +214,7 @@ def shard_exhaustive(ctx, shard, nshards, maxlen):
 
 
 P_INLINE = G.P(names=G.NEUTRAL + ['p', 'div', 'span', 'em', 'ul'], nameless=0.12, mentions='paren', text=0.75, text_kind='full', text_only=0.2, groups=0.15, max_items=5,
-               max_depth=2, rep=0.2, rep_max=3, sc=0.0, counters=True, counter_forms='all', max_nodes=120)
+               max_depth=2, rep=0.2, rep_max=3, sc=0.1, counters=True, counter_forms='all', max_nodes=120)
 
 LINE_ALPHA = list("abcXY12 \t#@-.*>+^()[]{}'\"=\\/:!$,;&%") + ['é', '☃']
 LOOKS_LIKE = ['ul>li*3', 'a{b}', '$$@-', '${1:x}', '$#', '\\', '\\\\', '*', '*2', ')', ']', '}', '{', 'a+b', 'p>{x}', '[a=b]', '- item', '1. one', '$', 'x$y', '#id.cls', '/']
@@ -233,6 +234,8 @@ def wrap_case(draw):
     for d in range(depth):
         sc += [el(names[d], r=draw(st.sampled_from([None, None, 2])) if mode == 'none' else None, x=draw(st.sampled_from([None, None, ['t']]))), '>']
     x = el('xt')
+    sc_last = draw(st.integers(0, 5)) == 0     # the deepest last element is written self-closing (`x/`): its text is still its content
+    nested = draw(st.sampled_from([None, None, 2, 3])) if mode != 'none' else None   # explicit repeater below the implicit one
     if draw(st.booleans()):
         x['x'] = ['own ']
     if mode != 'none':
@@ -252,14 +255,18 @@ def wrap_case(draw):
         item = {'g': [el('x5'), '+', inner, '>', el('x6')], 'r': '*'}
     sc.append(item)
     if tail in ('child', 'children') and 'g' not in item:
-        sc += ['>', el('x7')]
+        sc += ['>', el('x7', r=nested if tail == 'child' else None)]
         if tail == 'children':
             sc += ['+', el('x8', x=['k'] if mode != 'star-ph' or draw(st.booleans()) else [['#']])]
             if mode == 'star-ph' and sc[-1]['x'] == [['#']] and not M.has_placeholder(x):
                 pass
     if mode == 'star-ph' and where == 'child':
         if sc[-1] is item:
-            sc += ['>', el('x7', x=['c:', ['#']])]
+            if nested and draw(st.booleans()):
+                # placeholder inside an explicitly repeated group below the implicit repeater: every copy gets the line of its implicit copy
+                sc += ['>', {'g': [el('x7', m=[['a', 'title', 'dq', [['#']], False]]), '+', el('x9', x=[['#'], '!'])], 'r': nested}]
+            else:
+                sc += ['>', el('x7', x=['c:', ['#']], r=nested)]
         else:
             sc[-1]['x'] = ['c:', ['#']]
     if mode == 'none' and draw(st.booleans()):
@@ -268,6 +275,11 @@ def wrap_case(draw):
         text = draw(st.text(alphabet=[c for c in LINE_ALPHA if c not in ' \t'], min_size=1, max_size=8))
     else:
         text = draw(lines_strategy())
+    last = sc[-1]
+    blank = not (''.join(text) if isinstance(text, list) else text).strip()
+    if sc_last and 'g' not in last and not (mode == 'none' and blank):
+        # (an empty text inserted into `x/` leaves the choice of tag form open; that is not this property's concern)
+        last['sc'] = True
     return {'script': sc, 'text': text}
 
 
